@@ -395,6 +395,10 @@ func (x *Exec) evalSel(env *Env, e *CSel) *Value {
 		}
 		// qualified constant pkg.Name
 		if _, bound := env.vars[id.Name]; !bound && x.lookupLocal(env, id.Name) == nil {
+			switch id.Name + "." + e.Name {
+			case "io.EOF", "io.ErrUnexpectedEOF", "bufio.ErrBufferFull", "io.ErrShortWrite", "io.ErrNoProgress", "bufio.ErrNegativeCount":
+				return x.knownGlobal(id.Name+"."+e.Name, types.Universe.Lookup("error").Type())
+			}
 			for short, pk := range x.P.TPkgs {
 				if short == id.Name || pk.Name() == id.Name {
 					if o := pk.Scope().Lookup(e.Name); o != nil {
